@@ -4,6 +4,8 @@ import TunnoxModel.Spec.C04
 Line protocol for C04 (see harness/c04/main.go):
   open pl <ok|junk|empty> maps <k> (<id> <listen> <target> <secret|-> <a|i> <rev 0|1> <exp 0|1|2>)*
        conn <hs 0|1|2> <cid> req <mid|-> <secret|-> <token|-> ts <none | bridge <mid> <served> | remote <mid> | local <mid>>
+       (conn may be followed by `asserts <scid> <0|1>`: what the transport object asserts; ts may also be `expired <mid>`;
+        the line may end in `cfg norouting` or `cfg nodedown`)
        [late <bridge <mid> | route <mid> | remote <mid>>]      (only with ts none: what appears while the request polls)
   obs: ack <none|ok|fail> att <none|src|tgt|fwd> data <0|1> ret <switch|err|pending>
 The clock is 1000; exp 1 = expired at 500, exp 2 = expires at 2000.  This node is node-A, the other node-B.
@@ -11,7 +13,7 @@ The clock is 1000; exp 1 = expired at 500, exp 2 = expires at 2000.  This node i
   rmw <usage|stats|status>   obs: revoked <0|1> ack <..> att <..> data <0|1>
     a whole-record update of mapping M is between its read and its write (gated store) when the target client revokes M;
     afterwards the target client presents M's secret for the waiting tunnel.
-  e2e      obs: secret <set|empty> src <ack> tgt <ack> data <0|1>
+  e2e      obs: secret <set|empty> src <ack> pushed <0|1> leak <0|1> tgt <ack> data <0|1>
 A mapping created through the real PortMappingService without a secret, then listen client (mapping id) and target
 client (the generated secret) open the same tunnel: compared with the fixed expectation "both admitted, bytes flow".
 -/
@@ -42,6 +44,7 @@ def parseTs : List String → Option TunnelState
   | ["none"] => some .none
   | ["bridge", m, sv] => some (.bridge m (sv == "1"))
   | ["remote", m] => some (.remote m "node-B")
+  | ["expired", _] => some .none   -- a waiting route whose TTL ran out counts as no route
   | ["local", m] => some (.remote m "node-A")
   | _ => none
 
@@ -57,26 +60,45 @@ def parseLate : List String → Option Late
   | ["late", "window", m] => some (.window m)
   | _ => none
 
+/-- `conn <hs> <cid> [asserts <scid> <temp 0|1>]`: the optional part is what the transport object behind the
+stream asserts (`GetClientID`, `CanCreateTemporaryControlConn`). -/
+def parseConn : List String → Option (ConnIdent × List String)
+  | "conn" :: hs :: cid :: rest => do
+    let cid ← cid.toNat?
+    let (scid, temp, rest) ← (match rest with
+      | "asserts" :: sc :: t :: rest' => do
+        let sc ← sc.toNat?
+        pure (sc, t == "1", rest')
+      | _ => some (0, false, rest))
+    let id : ConnIdent ← (if hs == "0" then some ⟨false, 0, false, temp, scid⟩
+      else if hs == "1" then some ⟨true, cid, true, temp, scid⟩
+      else if hs == "2" then some ⟨true, 0, false, temp, scid⟩ else none)
+    pure (id, rest)
+  | _ => none
+
 def parseCase : List String → Option Case
   | "open" :: "pl" :: pl :: "maps" :: k :: rest => do
     let k ← k.toNat?
     let (ms, rest) ← parseMaps k rest
+    let (id, rest) ← parseConn rest
     match rest with
-    | "conn" :: hs :: cid :: "req" :: mid :: sec :: tok :: "ts" :: tsToks => do
-      let cid ← cid.toNat?
-      let id : ConnIdent ← (if hs == "0" then some ⟨false, 0, false⟩
-        else if hs == "1" then some ⟨true, cid, true⟩
-        else if hs == "2" then some ⟨true, 0, false⟩ else none)
+    | "req" :: mid :: sec :: tok :: "ts" :: tail => do
+      -- optional trailing `cfg norouting` (this node has no routing table) / `cfg nodedown` (node-B unreachable)
+      let cfg := (tail.dropWhile (· != "cfg")).drop 1
+      let tsToks := tail.takeWhile (· != "cfg")
       let ts ← parseTs (tsToks.takeWhile (· != "late"))
       let late ← parseLate (tsToks.dropWhile (· != "late"))
-      let w : World := { mappings := ms, now := 1000, nodeID := "node-A" }
+      let late ← (if cfg == ["norouting"] then (if late == .none then some Late.noRouting else none)
+                  else if cfg == [] || cfg == ["nodedown"] then some late else none)
+      let w : World := { mappings := ms, now := 1000, nodeID := "node-A",
+                         unreachable := if cfg == ["nodedown"] then ["node-B"] else [] }
       if pl == "ok" then
         pure ⟨w, id, ⟨true, undash mid, "verif-tunnel-01", undash sec, undash tok⟩, ts, late⟩
       else if pl == "junk" then
         pure ⟨w, id, ⟨false, "", "", "", ""⟩, ts, late⟩
       else if pl == "empty" then
         -- an empty payload names the empty tunnel id: it addresses no existing tunnel
-        pure ⟨w, id, ⟨true, "", "", "", ""⟩, .none, .none⟩
+        pure ⟨w, id, ⟨true, "", "", "", ""⟩, .none, if late == .noRouting then late else .none⟩
       else none
     | _ => none
   | _ => none
@@ -108,7 +130,7 @@ def rmwWorld (u : Update) : World :=
 def runRmwModel (u : Update) : String :=
   let w := rmwWorld u
   let ts := TunnelState.bridge "M" false
-  let ob := (openTunnel w ⟨true, 22, true⟩ ⟨true, "M", "verif-tunnel-01", "s3cretM", ""⟩ ts).obs ts
+  let ob := (openTunnel w ⟨true, 22, true, false, 0⟩ ⟨true, "M", "verif-tunnel-01", "s3cretM", ""⟩ ts).obs ts
   let rv := match w.mappings with | m :: _ => m.IsRevoked | [] => false
   s!"revoked {if rv then "1" else "0"} ack {ackStr ob.ack} att {attStr ob.att} data {if ob.data then "1" else "0"}"
 
@@ -123,7 +145,7 @@ def runModel (ts : List String) : String :=
   match ts with
   | ["rmw", wr] => (match rmwWriter wr with | some u => runRmwModel u | none => "bad-case")
   | _ =>
-  if ts == ["e2e"] then "secret set src ok tgt ok data 1" else
+  if ts == ["e2e"] then "secret set src ok pushed 1 leak 0 tgt ok data 1" else
   match parseCase ts with
   | some c =>
     let o := openTunnelDyn c.w c.id c.req c.ts c.late
